@@ -160,12 +160,92 @@ func registerTimeModels(e *Engine) {
 		}
 		return TupleV{StrC(""), x.errorC("invalid URL escape")}
 	}
+	// url.PathUnescape decodes %XX like QueryUnescape but leaves '+' alone: for a value the
+	// sender escaped in a style that writes a blank as '+' the result is the value with
+	// its blanks turned into '+'
+	m["net/url.PathUnescape"] = func(x *Exec, fr *frame, a []Value) Value {
+		t := x.term(a[0])
+		if t.IsConst() {
+			s, err := url.PathUnescape(t.S)
+			if err != nil {
+				return TupleV{StrC(""), x.errorC("invalid URL escape")}
+			}
+			return TupleV{StrC(s), NilIface}
+		}
+		if t.Op == "uf" && escapeUF[t.S] {
+			if t.S == "qe2" { // the "%20" style
+				return TupleV{t.Args[0], NilIface}
+			}
+			return TupleV{ReplaceAll(t.Args[0], StrC(" "), StrC("+")), NilIface}
+		}
+		if x.Branch(UFSort("unpe.ok", SBool, t)) {
+			return TupleV{UF("unpe", t), NilIface}
+		}
+		return TupleV{StrC(""), x.errorC("invalid URL escape")}
+	}
 	m["net/url.PathEscape"] = func(x *Exec, fr *frame, a []Value) Value {
 		t := x.term(a[0])
 		if t.IsConst() {
 			return StrC(url.PathEscape(t.S))
 		}
 		return UF("pe", t)
+	}
+	// url.ParseRequestURI: like Parse for absolute URLs and rooted paths, but the text is
+	// taken to have no #fragment - a '#' and what follows stays in the path (or in
+	// the query, or in the host, where it is invalid). Contract for constant texts and
+	// for URLs the harness built from components; other symbolic texts: no contract.
+	m["net/url.ParseRequestURI"] = func(x *Exec, fr *frame, a []Value) Value {
+		t := x.term(a[0])
+		ut := x.E.namedType("net/url", "URL")
+		c := x.newCell(zeroValue(ut), ut, "url.ParseRequestURI")
+		p := &Pointer{Cell: c}
+		if t.IsConst() {
+			u, err := url.ParseRequestURI(t.S)
+			if err != nil {
+				return TupleV{NilPtr, x.errorC("parse " + t.S + ": " + err.Error())}
+			}
+			x.setField(p, ut, "Scheme", StrC(u.Scheme))
+			x.setField(p, ut, "Opaque", StrC(u.Opaque))
+			x.setField(p, ut, "Host", StrC(u.Host))
+			x.setField(p, ut, "Path", StrC(u.Path))
+			x.setField(p, ut, "RawPath", StrC(u.RawPath))
+			x.setField(p, ut, "RawQuery", StrC(u.RawQuery))
+			x.setField(p, ut, "Fragment", StrC(u.Fragment))
+			x.setField(p, ut, "ForceQuery", BoolC(u.ForceQuery))
+			return TupleV{p, NilIface}
+		}
+		if x.attr(t, "badurl") {
+			return TupleV{NilPtr, x.libError("url.ParseRequestURI")}
+		}
+		parts, ok := x.urlParts[t.S]
+		if !ok || t.Op != "sym" {
+			panic(abortf("no contract for url.ParseRequestURI of a symbolic text the harness did not build from components"))
+		}
+		scheme, host, path, query, frag := parts[0], parts[1], parts[2], parts[3], parts[4]
+		// neither an absolute URI nor an absolute path
+		if x.Branch(And(Eq(scheme, StrC("")), Not(PrefixOf(StrC("/"), path)))) {
+			return TupleV{NilPtr, x.libError("url.ParseRequestURI")}
+		}
+		hasFrag := x.Branch(Not(Eq(frag, StrC(""))))
+		hasQuery := x.Branch(Not(Eq(query, StrC(""))))
+		tail := StrC("")
+		if hasFrag {
+			tail = Concat(StrC("#"), frag)
+		}
+		x.setField(p, ut, "Scheme", scheme)
+		x.setField(p, ut, "Host", host)
+		switch {
+		case hasQuery:
+			x.setField(p, ut, "Path", path)
+			x.setField(p, ut, "RawQuery", Concat(query, tail))
+		case hasFrag && x.Branch(Eq(path, StrC(""))):
+			// "scheme://host#x": the '#' lands in the host, which is invalid
+			return TupleV{NilPtr, x.libError("url.ParseRequestURI")}
+		default:
+			x.setField(p, ut, "Path", Concat(path, tail))
+		}
+		x.urlInfos[c] = &urlInfo{simple: true}
+		return TupleV{p, NilIface}
 	}
 	m["net/url.Parse"] = func(x *Exec, fr *frame, a []Value) Value {
 		t := x.term(a[0])
